@@ -10,6 +10,60 @@ SYNS = ["BER", "OER", "UPER", "BXER"]
 ENCS = ["DER", "OER", "UPER", "CXER", "BXER"]
 
 
+def model_items(b, rng, quick):
+    from ..asn import shapes
+    # ---- stage 1: corpus + clean allocation counts
+    cases, meta = [], {}
+    cid = 0
+    for tname, t in b.mod.types.items():
+        for v in (shapes.values4(b.mod, tname, rng, quick) if b.mod.name == "EQ" else b.gen.values(t, 1 if quick else 3)):
+            ref = harness.ref_der(b, t, v)
+            if ref is None:
+                continue
+            cid += 1
+            cases.append(drv.Case(cid, ["dec s=0 t=%s syn=BER in=%s" % (tname, drv.hx(ref))] +
+                                  ["enc s=0 syn=%s" % s for s in ENCS]))
+            meta[cid] = (tname, t, ref)
+    res = drv.run_parallel(b.exe, cases, confirm=False)
+    items = []      # (tname, syn, bytes, nalloc_dec)
+    encn = {}       # (tname, ref) -> {enc syn: nalloc}
+    for cid, (tname, t, ref) in meta.items():
+        r = res.get(cid)
+        if r is None or r.status != "ok" or len(r.events) < 6 or r.events[0].get("rc") != "OK":
+            continue
+        items.append((tname, "BER", ref, int(r.events[0].get("nalloc", 0)), ref))
+        encn[(tname, ref)] = {s: (int(e.get("nalloc", 0)), e.get("out"), e.get("rc"), int(e.get("calls", 0) or 0)) for s, e in zip(ENCS, r.events[1:6])}
+        for s, es in (("OER", "OER"), ("UPER", "UPER"), ("BXER", "BXER")):
+            e = r.events[1 + ENCS.index(es)]
+            if int(e.get("rc", -1)) >= 0 and e.get("out") not in (None, "q", "trunc"):
+                items.append((tname, s, drv.unhex(e["out"]), None, ref))
+    return items, encn
+
+
+def real_items(chk, tc, b):
+    """the shipped sample PDUs of a shipped specification (vf/realpdu.py) and the library's encodings of them"""
+    from .. import realpdu
+    items, encn = [], {}
+    for spec, pdu, syn, label, data in realpdu.samples(tc, [b.name]):
+        r = drv.run_cases(b.exe, [drv.Case(1, ["dec s=0 t=%s syn=%s in=%s" % (pdu, syn, drv.hx(data))] + ["enc s=0 syn=%s" % s for s in ENCS] + ["free s=0"])],
+                          confirm=False).get(1)
+        if r is None or r.status != "ok" or len(r.events) < 6 or r.events[0].get("rc") != "OK":
+            chk.inconcl("shipped sample %s not decoded (C03)" % label)
+            continue
+        d = r.events[1]
+        if int(d.get("rc", -1)) < 0 or d.get("out") in (None, "q", "trunc"):
+            continue
+        ref = drv.unhex(d["out"])
+        items.append((pdu, "BER", ref, int(r.events[0].get("nalloc", 0)), ref))
+        encn[(pdu, ref)] = {s: (int(e.get("nalloc", 0)), e.get("out"), e.get("rc"), int(e.get("calls", 0) or 0)) for s, e in zip(ENCS, r.events[1:6])}
+        for s in ("OER", "UPER", "BXER"):
+            e = r.events[1 + ENCS.index(s)]
+            if int(e.get("rc", -1)) >= 0 and e.get("out") not in (None, "q", "trunc"):
+                items.append((pdu, s, drv.unhex(e["out"]), None, ref))
+        chk.count("real_samples")
+    return items, encn
+
+
 def run(tier, seed):
     chk = core.Check("C14", tier, seed, level="fault_enumeration")
     quick = tier == "quick"
@@ -18,7 +72,7 @@ def run(tier, seed):
                 "callback, FREE_CONTENTS_ONLY, FREE}; and for every decoder (BER,OER,UPER,XER) and encoder (DER,OER,UPER,XER) call the "
                 "failure of the k-th allocation for every k up to the number of allocations of the clean call (capped, see counters); "
                 "oracle: the allocation ledger (nothing live after FREE, encoders hold nothing on return), ASan, zeroed structure after RESET "
-                "and equality of the post-RESET decode with a decode into a fresh structure; distinct = distinct (type, op, fault index / history)")
+                "and equality of the post-RESET decode with a decode into a fresh structure; the shipped X.509 / LDAP (thorough: UMTS RRC) sample PDUs likewise; distinct = distinct (type, op, fault index / history)")
     chk.assumptions = ["allocation interposed at link time (--wrap) around the libc names the MALLOC/CALLOC/REALLOC/FREEMEM macros expand to",
                        "one allocation failure per call (single fault)"]
     tc = build.toolchain()
@@ -33,36 +87,19 @@ def run(tier, seed):
     # fixed shapes: DEFAULTs of every inline kind, character string DEFAULTs included (their generated setters allocate)
     from ..asn import shapes
     builds += harness.make_many(tc, [seed * 1000 + 599], prof, module_fn=lambda g: shapes.build4("EQ"))
+    from .. import realpdu
+    rn = realpdu.names(quick)
+    rb = realpdu.make_many(tc, rn)
+    builds += [rb[n_] for n_ in rn]
     sites = set()
     for b in builds:
         if b.exe is None:
             chk.inconcl("module not built (%s)" % b.error[0])
             continue
-        # ---- stage 1: corpus + clean allocation counts
-        cases, meta = [], {}
-        cid = 0
-        for tname, t in b.mod.types.items():
-            for v in (shapes.values4(b.mod, tname, rng, quick) if b.mod.name == "EQ" else b.gen.values(t, 1 if quick else 3)):
-                ref = harness.ref_der(b, t, v)
-                if ref is None:
-                    continue
-                cid += 1
-                cases.append(drv.Case(cid, ["dec s=0 t=%s syn=BER in=%s" % (tname, drv.hx(ref))] +
-                                      ["enc s=0 syn=%s" % s for s in ENCS]))
-                meta[cid] = (tname, t, ref)
-        res = drv.run_parallel(b.exe, cases, confirm=False)
-        items = []      # (tname, syn, bytes, nalloc_dec)
-        encn = {}       # (tname, ref) -> {enc syn: nalloc}
-        for cid, (tname, t, ref) in meta.items():
-            r = res.get(cid)
-            if r is None or r.status != "ok" or len(r.events) < 6 or r.events[0].get("rc") != "OK":
-                continue
-            items.append((tname, "BER", ref, int(r.events[0].get("nalloc", 0)), ref))
-            encn[(tname, ref)] = {s: (int(e.get("nalloc", 0)), e.get("out"), e.get("rc"), int(e.get("calls", 0) or 0)) for s, e in zip(ENCS, r.events[1:6])}
-            for s, es in (("OER", "OER"), ("UPER", "UPER"), ("BXER", "BXER")):
-                e = r.events[1 + ENCS.index(es)]
-                if int(e.get("rc", -1)) >= 0 and e.get("out") not in (None, "q", "trunc"):
-                    items.append((tname, s, drv.unhex(e["out"]), None, ref))
+        if b.mod is None:
+            items, encn = real_items(chk, tc, b)
+        else:
+            items, encn = model_items(b, rng, quick)
         # ---- stage 2: histories and fault enumeration
         cases, meta = [], {}
         cid = 0
@@ -70,6 +107,9 @@ def run(tier, seed):
             # clean decode count for non-BER comes from a probe inside the case itself (first op)
             n = len(x)
             ks = list(range(1, kcap + 1))
+            if b.mod is None and nalloc and nalloc > kcap:
+                # a real PDU allocates hundreds of times: the failing allocation is spread over the whole decode
+                ks = sorted(set(1 + (i_ * (nalloc - 1)) // (kcap * 2 - 1) for i_ in range(kcap * 2)))
             # A: OOM during decode, then print+free; then RESET path: oom-decode, reset, decode again == fresh
             for k in ks:
                 cid += 1
@@ -121,8 +161,8 @@ def run(tier, seed):
         for cid, m in meta.items():
             kind, tname, syn, x, k = m[:5]
             r = res.get(cid)
-            t = b.mod.types[tname]
-            flags = static_flags(b.mod, t)
+            t = b.mod.types[tname] if b.mod is not None else None
+            flags = static_flags(b.mod, t) if b.mod is not None else {"has_set": b.has_set}
             if r is None or r.status == "notrun":
                 chk.inconcl("case not run")
                 continue
